@@ -376,6 +376,12 @@ def funnel(P: Program, rep: Report) -> None:
             rep.note(f"R11.5 exemption no longer needed (function gone): {q}")
 
 
+# pairs an operator-specific pre-check may reject although the generic promotion would accept them (reviewed, one reason each)
+OWN_COMPAT_REVIEWED: Dict[str, Set[frozenset]] = {
+    "vtlengine.Operators.Time.SimpleBinaryTime": {frozenset(("Date", "Time_Period"))},  # datediff does not mix a date with a period (both promote to Time, but a difference in days is undefined)
+}
+
+
 def own_compatibility_symmetric(P: Program, rep: Report, types: List[ClassVal], rev: Dict[ClassVal, str]) -> None:
     """R11.8  An operator class that decides type compatibility of two operands with code of its own (an override of
     validate_type_compatibility(left, right) outside the generic Binary) is evaluated over all 9x9 type pairs: "the operands have a
@@ -402,6 +408,31 @@ def own_compatibility_symmetric(P: Program, rep: Report, types: List[ClassVal], 
                 except Unmodelled as e:
                     raise AnalysisError(f"R11.8: {f.qualname} outside the evaluator's language: {e}")
         n += 1
+        # the override is a PRE-check in front of the generic promotion: besides being symmetric it may only reject, and only the reviewed pairs
+        fgen = P.func(f"{DT}.check_binary_implicit_promotion")
+        for sub in [c] + P.subclasses(c.qualname):
+            ttc, rt = P.lookup_attr(sub, "type_to_check"), P.lookup_attr(sub, "return_type")
+            if ttc is None or rt is None or not isinstance(ttc[1], ast.Name) or not isinstance(rt[1], ast.Name):
+                continue
+            tv, rv = ClassVal(f"{DT}.{ttc[1].id}"), ClassVal(f"{DT}.{rt[1].id}")
+            extra: List[Tuple[str, str]] = []
+            for a in types:
+                for b in types:
+                    try:
+                        gp = [x.arg for x in fgen.node.args.args]
+                        gen = bool(Interp(P).call(fgen, dict(zip(gp, (a, b, tv, rv)))))
+                    except Raised:
+                        gen = False
+                    except Unmodelled as e:
+                        raise AnalysisError(f"R11.8: check_binary_implicit_promotion outside the evaluator's language: {e}")
+                    if gen and table[(a, b)] is False and frozenset((rev[a], rev[b])) not in OWN_COMPAT_REVIEWED.get(c.qualname, set()):
+                        extra.append((rev[a], rev[b]))
+            rep.instance("R11.8", f"restricts-only-reviewed/{sub.qualname}", nontrivial=True, sample={"operator": sub.qualname, "type_to_check": ttc[1].id})
+            if extra:
+                rep.add(Finding("R11.8", f"R11.8/restricts/{sub.qualname}", f.module.rel, f.node.lineno, f.qualname,
+                                f"{sub.short if hasattr(sub, 'short') else sub.qualname.rsplit('.', 1)[-1]}: the operator's own pre-check rejects {extra[:4]} ({len(extra)} pair(s)) although the implicit-cast table gives "
+                                f"them a common type admitted by {ttc[1].id} and the promotion reports {rt[1].id}: the check that accepts a type pair no longer agrees with the promotion that computes its result "
+                                f"(e.g. datediff(<date>, null))"))
         asym = [(a, b) for (a, b), v in table.items() if v != table[(b, a)]]
         rep.instance("R11.8", f"symmetric/{f.qualname}", nontrivial=True, sample={"method": f.qualname, "accepted pairs": sum(1 for v in table.values() if v is True)})
         if asym:
